@@ -255,6 +255,15 @@ func TestVerif_C16(t *testing.T) {
 		if err != nil {
 			return
 		}
+		if l.Batch%3 == 1 {
+			// the once-wrapped handler has served traffic while debug mode was ON before it is switched off, with no
+			// reconfiguration in between (lesson of seeded change C16-s: per-handler state refreshed by Reconfigure only)
+			mw.SetDebug(true)
+			serve(mw, actualReq("GET", "https://example.com"))
+			serve(mw, preflightReq("https://example.com", "PUT", []string{"x-not-listed-anywhere"}, false))
+			mw.SetDebug(false)
+			l.counters["middlewares_that_served_in_debug_mode_before"]++
+		}
 		sem := c.Sem()
 		e := &c16Env{spec: c, sem: sem, mw: mw, failStatus: map[int]int{}}
 		var allowed []string
